@@ -24,7 +24,7 @@ import (
 func init() {
 	core.Register(&core.Simple{
 		Id: "C15", Lvl: "exploration", Quick: 160, Thorough: 4000, PerBatch: 40, Width: 16, Timeout: 1500,
-		RuleText: "each case is a history of 12-25 account-management requests sent by an administrator through the real connection loop (new-user, set-user, delete-user, update-user batches mixing create/modify/rename/delete; logins, names and passwords drawn from byte strings that are legal file names incl. spaces, YAML-significant text, leading/trailing blanks, high bytes, up to 200 bytes; password field = new / one-zero-byte 'unchanged' marker / absent); after every step a reference model is compared with (1) login attempts for every login ever used with its current and formerly used passwords, (2) list-users and get-user replies, (3) the parsed account files, (4) a second account manager loaded from the directory. a stress batch lets five administrators create the same fresh login at the same moment (exactly one may win, and memory, file and restart must show the winner's data). distinct = (multiset of operation kinds in the history); non-trivial = history contains a rename, delete or password change",
+		RuleText: "each case is a history of 12-25 account-management requests sent by an administrator through the real connection loop (new-user, set-user, delete-user, update-user batches mixing create/modify/rename/delete; logins, names and passwords drawn from byte strings that are legal file names incl. spaces, YAML-significant text, leading/trailing blanks, high bytes, names up to 255 bytes, logins up to the 250 bytes for which '<login>.yaml' is still a legal file name; password field = new / one-zero-byte 'unchanged' marker / absent); after every step a reference model is compared with (1) login attempts for every login ever used with its current and formerly used passwords, (2) list-users and get-user replies, (3) the parsed account files, (4) a second account manager loaded from the directory. a stress batch lets five administrators create the same fresh login at the same moment (exactly one may win, and memory, file and restart must show the winner's data). distinct = (multiset of operation kinds in the history); non-trivial = history contains a rename, delete or password change",
 		Case:     runCase,
 		Extra: func(tier string, seed int64) []core.Batch {
 			n := 40
@@ -164,10 +164,27 @@ func genName(r *core.Rand, maxLen int) string {
 	}
 }
 
+// genUserName: display names up to 255 bytes (together with a long login the account's list entry exceeds 512 bytes).
+func (w *world) genUserName() string {
+	r := w.c.R
+	if r.Chance(1, 6) {
+		return string(r.Printable(200+r.Intn(56))) + "n"
+	}
+	return genName(r, 60)
+}
+
 func (w *world) freshLogin() string {
 	for {
 		l := genName(w.c.R, 180)
-		if strings.ContainsAny(l, "/\x00") || l == "." || l == ".." || len(l) > 200 {
+		if w.c.R.Chance(1, 7) {
+			// the longest logins whose account file name "<login>.yaml" is still a legal file name (255 bytes)
+			n := core.Pick(w.c.R, []int{238, 244, 245, 246, 247, 248, 249, 250})
+			l = strings.TrimSpace(string(w.c.R.Printable(n-1))) + "x"
+			for len(l) < n {
+				l = "p" + l
+			}
+		}
+		if strings.ContainsAny(l, "/\x00") || l == "." || l == ".." || len(l) > 250 {
 			continue
 		}
 		taken := false
@@ -281,7 +298,7 @@ func (w *world) doStep() bool {
 	w.kinds[kind]++
 	switch kind {
 	case "new-user":
-		l, name, pw, acc := w.freshLogin(), genName(r, 60), w.genPW(), w.genAccess()
+		l, name, pw, acc := w.freshLogin(), w.genUserName(), w.genPW(), w.genAccess()
 		fs := []rc.Field{rc.F(105, rc.Obfuscate([]byte(l))), rc.FS(102, name), rc.F(110, acc)}
 		if pw != "" || r.Bool() {
 			fs = append(fs, rc.F(106, rc.Obfuscate([]byte(pw))))
@@ -305,7 +322,7 @@ func (w *world) doStep() bool {
 		}
 	case "set-user":
 		l := core.Pick(r, ex)
-		name, acc := genName(r, 60), w.genAccess()
+		name, acc := w.genUserName(), w.genAccess()
 		mode, pw := w.pickMode()
 		fs := append([]rc.Field{rc.F(105, rc.Obfuscate([]byte(l))), rc.FS(102, name), rc.F(110, acc)}, pwField(mode, pw)...)
 		rep, ok := w.adm.Call(353, fs...)
@@ -346,7 +363,7 @@ func (w *world) doStep() bool {
 			w.kinds["batch-"+sub]++
 			switch sub {
 			case "create":
-				l, name, pw, acc := w.freshLogin(), genName(r, 60), w.genPW(), w.genAccess()
+				l, name, pw, acc := w.freshLogin(), w.genUserName(), w.genPW(), w.genAccess()
 				recs = append(recs, rc.F(101, rc.SubFields(rc.F(105, rc.Obfuscate([]byte(l))), rc.FS(102, name), rc.F(106, rc.Obfuscate([]byte(pw))), rc.F(110, acc))))
 				w.model[l] = &macc{name, acc, pw}
 				w.notePW(l, pw)
@@ -360,7 +377,7 @@ func (w *world) doStep() bool {
 				}
 				touched[l] = true
 				a := w.model[l]
-				name := genName(r, 60)
+				name := w.genUserName()
 				mode, pw := w.pickMode()
 				target := l
 				fs := []rc.Field{}
